@@ -79,6 +79,16 @@ type Step struct {
 	Line int
 }
 
+// GuardedBy: fields of a struct that may only be accessed while a mutex field of the same object is held.
+type GuardedBy struct {
+	Struct string
+	Mutex  string
+	Fields []string
+	Props  []string
+	File   string
+	Line   int
+}
+
 type GhostField struct {
 	Struct string // struct key, e.g. cryptobyte.Builder
 	Name   string
@@ -133,6 +143,7 @@ type Contracts struct {
 	FuncOrd []string
 	Census  []*Census
 	GFields []*GhostField
+	Guards  []*GuardedBy
 	Errors  []string
 }
 
@@ -248,6 +259,23 @@ func (c *Contracts) LoadFile(path string) error {
 		case "census":
 			cur = nil
 			c.parseCensus(path, ln, rest)
+		case "guarded": // guarded [Cxx] pkg.Struct.mutex: f1, f2
+			cur = nil
+			tags, r := splitTags(rest)
+			i := strings.Index(r, ":")
+			if i < 0 {
+				c.errf(path, ln, "guarded needs `pkg.Struct.mutex: fields`")
+				continue
+			}
+			fq := strings.TrimSpace(r[:i])
+			j := strings.LastIndex(fq, ".")
+			gb := &GuardedBy{Struct: fq[:j], Mutex: fq[j+1:], Props: tags, File: path, Line: ln}
+			for _, f := range strings.Split(r[i+1:], ",") {
+				if f = strings.TrimSpace(f); f != "" {
+					gb.Fields = append(gb.Fields, f)
+				}
+			}
+			c.Guards = append(c.Guards, gb)
 		case "func", "assume":
 			assumed := false
 			if word == "assume" {
